@@ -4,35 +4,534 @@
 -/
 import YalafiVerif.Proofs.Inv.Basic
 namespace Yalafi
+set_option linter.unusedVariables false
 
 variable (T : PTables)
 
+/-! ### generic helpers (in namespace `StepWork` to avoid clashes with the other step files) -/
+namespace StepWork
+
+theorem Good_refl {T : PTables} {nroot : Nat} {st : PState} (h : G T nroot st) : Good T nroot st st :=
+  ⟨h, rfl, rfl⟩
+
+theorem Good_trans {T : PTables} {nroot : Nat} {a b c : PState}
+    (h1 : Good T nroot a b) (h2 : Good T nroot b c) : Good T nroot a c :=
+  ⟨h2.1, h2.2.1.trans h1.2.1, h2.2.2.trans h1.2.2⟩
+
+theorem Good_len {T : PTables} {nroot : Nat} {a b : PState} (h : Good T nroot a b) :
+    b.latex.length = a.latex.length := by rw [h.2.1]
+
+/-- `Post_bind` with implicit arguments -/
+theorem pbind {α β} {x : M α} {f : α → M β} {st : PState} {R : β → PState → Prop}
+    (Q : α → PState → Prop) (hx : Post (x st) Q) (hf : ∀ a s, Q a s → Post (f a s) R) :
+    Post ((x >>= f) st) R := Post_bind x f st Q R hx hf
+
+theorem ppure {α} {a : α} {st : PState} {Q : α → PState → Prop} (h : Q a st) :
+    Post ((pure a : M α) st) Q := Post_pure a st Q h
+
+theorem pmono {α} {x : Outcome (α × PState)} {Q R : α → PState → Prop}
+    (h : Post x Q) (hi : ∀ a s, Q a s → R a s) : Post x R := Post_mono x Q R h hi
+
+/-! ### `cap_first` -/
+
+theorem BTok_upperTok (n : Nat) (t : Tok) (txt : Str) (h : BTok T n t) (hk : t.kind = .text) :
+    BTok T n (upperTok t txt) := by
+  obtain ⟨⟨hp, he, hc, hm⟩, hmath⟩ := h
+  refine ⟨⟨hp, ?_, ?_, ?_⟩, ?_⟩
+  · intro hf
+    simp only [upperTok] at hf ⊢
+    split at hf
+    · cases hf
+    · rename_i hl
+      have hl' : txt.length = t.txt.length := by simpa using hl
+      have := he hf
+      simp only [extent, hk] at this ⊢
+      omega
+  · simp [ctlEmpty, upperTok, hk]
+  · simp [mbOk, upperTok, hk]
+  · simp [isMathTok, upperTok, hk]
+
+theorem capFirst_BL (n : Nat) (toks ts : List Tok) (h : BL T n toks) (hc : capFirst T toks = some ts) :
+    BL T n ts := by
+  unfold capFirst at hc
+  split at hc
+  · cases hc; exact h
+  · rename_i i hi
+    split at hc
+    · cases hc; exact h
+    · rename_i t ht
+      split at hc
+      · cases hc
+      · cases hc
+        intro x hx
+        rcases List.mem_or_eq_of_mem_set hx with hx | hx
+        · exact h x hx
+        · subst hx
+          have hmem : t ∈ toks := List.mem_of_getElem? ht
+          apply BTok_upperTok T n t _ (h t hmem)
+          rw [List.findIdx?_eq_some_iff_getElem] at hi
+          obtain ⟨hlt, hp, _⟩ := hi
+          rw [List.getElem?_eq_getElem hlt] at ht
+          cases ht
+          simpa using hp
+/-! ### `parseValue` helpers -/
+
+theorem Good_of_diags {T : PTables} {nroot : Nat} {st st' : PState} (hg : G T nroot st)
+    (h : st' = { st with diags := st'.diags }) : Good T nroot st st' := by
+  rw [h]; exact ⟨G_diags T nroot st _ hg, rfl, rfl⟩
+
+theorem BTok_special (hw : T.WFInv) (n p : Nat) (k : Str) (hk : k ∈ [['{'], ['}'], ['\\', ';']])
+    (hp : p < n) : BTok T n (mkTok .special p k) := by
+  obtain ⟨v, hv, hl⟩ := hw.special_small k hk
+  refine ⟨⟨hp, ?_, rfl, rfl⟩, rfl⟩
+  intro _
+  simp only [extent, mkTok, hv, Option.getD_some]
+  omega
+
+theorem BL_cons {T : PTables} {n : Nat} {t : Tok} {ts : List Tok} :
+    BL T n (t :: ts) ↔ BTok T n t ∧ BL T n ts := by
+  simp [BL]
+
+theorem BL_nil {T : PTables} {n : Nat} : BL T n [] := by simp [BL]
+
+theorem parseValue_seq_BL (hw : T.WFInv) (n : Nat) (t : Tok) (a : List Tok) (ht : t.pos < n)
+    (ha : BL T n a) :
+    BL T n (match (generalizing := false) a with
+      | [v] => if v.kind == .void then [] else
+          [mkTok .special t.pos ['{'], v, mkTok .special v.pos ['}']]
+      | s => [mkTok .special t.pos ['{']] ++ s ++ [mkTok .special ((s.getLast?.map (·.pos)).getD 0) ['}']]) := by
+  have h0 : 0 < n := by omega
+  have hS := fun p k hk hp => BTok_special T hw n p k hk hp
+  rcases a with _ | ⟨v, _ | ⟨w, tl⟩⟩
+  · simp only [BL_cons, List.append_nil, List.nil_append, List.cons_append, List.getLast?_nil,
+      Option.map_none, Option.getD_none]
+    exact ⟨hS _ _ (by simp) ht, hS _ _ (by simp) h0, BL_nil⟩
+  · have hv := ha v (by simp)
+    dsimp only
+    split
+    · exact BL_nil
+    · simp only [BL_cons]
+      exact ⟨hS _ _ (by simp) ht, hv, hS _ _ (by simp) hv.1.1, BL_nil⟩
+  · dsimp only
+    rw [BL_append, BL_append]
+    refine ⟨⟨?_, ha⟩, ?_⟩
+    · simp only [BL_cons]; exact ⟨hS _ _ (by simp) ht, BL_nil⟩
+    · simp only [BL_cons]
+      refine ⟨hS _ _ (by simp) ?_, BL_nil⟩
+      cases hl : (v :: w :: tl).getLast? with
+      | none => simpa using h0
+      | some l => simpa using (ha l (List.mem_of_getLast? hl)).1.1
+
+/-! ### `parseKeyvals` helpers -/
+
+theorem BL_sub {T : PTables} {n : Nat} {a b : List Tok} (hb : BL T n b) (h : a.Sublist b) : BL T n a :=
+  fun t ht => hb t (h.subset ht)
+
+theorem kvOk_snoc {T : PTables} {n : Nat} {acc : List (Str × Option (List Tok))} {k : Str}
+    {v : Option (List Tok)} (ha : kvOk T n acc) (hv : ∀ ts, v = some ts → BL T n ts) :
+    kvOk T n (acc ++ [(k, v)]) := by
+  intro kv hkv ts hts
+  rcases List.mem_append.1 hkv with h | h
+  · exact ha kv h ts hts
+  · simp only [List.mem_singleton] at h
+    subst h
+    exact hv ts hts
+
+/-! ### state helpers -/
+
+theorem pget {st : PState} : Post (M.get st) (fun a s => st = a ∧ st = s) :=
+  Post_get st _ ⟨rfl, rfl⟩
+
+theorem pmodify {f : PState → PState} {st : PState} : Post (M.modify f st) (fun _ s => s = f st) :=
+  Post_modify f st _ rfl
+
+theorem G0_congr {T : PTables} {nroot : Nat} {st st' : PState} (h : G0 T nroot st)
+    (hf : st'.foreign = st.foreign) (he : st'.extracted = st.extracted) (hm : st'.macros = st.macros)
+    (hv : st'.envs = st.envs) (hgl : st'.glossary = st.glossary) : G0 T nroot st' := by
+  refine ⟨?_, ?_, ?_, ?_⟩
+  · rw [hf, he]; exact h.flows
+  · rw [hm, hv]; exact h.macros
+  · rw [hv]; exact h.envs
+  · rw [hgl]; exact h.gloss
+
+/-! ### `modifyParameters` / `initPackage` -/
+
+section
+variable (nroot : Nat)
+
+theorem mem_setMacro {ms : List MacroDef} {x m : MacroDef} (h : m ∈ setMacro ms x) : m ∈ ms ∨ m = x := by
+  unfold setMacro at h
+  split at h
+  · obtain ⟨y, hy, rfl⟩ := List.mem_map.1 h
+    split
+    · exact Or.inr rfl
+    · exact Or.inl hy
+  · rcases List.mem_append.1 h with h | h
+    · exact Or.inl h
+    · exact Or.inr (by simpa using h)
+
+theorem mem_foldl_setMacro {xs ms : List MacroDef} {m : MacroDef} (h : m ∈ xs.foldl setMacro ms) :
+    m ∈ ms ∨ m ∈ xs := by
+  induction xs generalizing ms with
+  | nil => exact Or.inl h
+  | cons x xs ih =>
+    rcases ih h with h | h
+    · rcases mem_setMacro h with h | h
+      · exact Or.inl h
+      · exact Or.inr (by simp [h])
+    · exact Or.inr (by simp [h])
+
+theorem langOnly_babel (opts : List KeyVal) : langOnly (babelLanguageToken T opts) := by
+  unfold babelLanguageToken
+  split
+  · intro t ht
+    simp only [List.mem_singleton] at ht
+    subst ht
+    exact ⟨rfl, rfl⟩
+  · intro t ht; cases ht
+
+theorem langOnly_nil : langOnly [] := by intro t ht; cases ht
+
+theorem langOnly_append {a b : List Tok} (ha : langOnly a) (hb : langOnly b) : langOnly (a ++ b) := by
+  intro t ht
+  rcases List.mem_append.1 ht with h | h
+  · exact ha t h
+  · exact hb t h
+
+theorem G_of_G0_Same {T : PTables} {nroot : Nat} {st st' : PState} (hg : G T nroot st) (h0 : G0 T nroot st')
+    (hs : Same st st') : Good T nroot st st' := by
+  refine ⟨⟨h0, ?_, ?_⟩, hs⟩
+  · rw [hs.1, hs.2]; exact hg.root
+  · rw [hs.2]; exact hg.inFrame
+
+theorem modParams_core (fuel : Nat) (IHwork : SpecWork T nroot fuel) :
+    SpecModParams T nroot (fuel + 1) := by
+  intro md options position st hg hm he
+  rw [modifyParameters.eq_2]
+  split
+  · exact Post_crash _ _ _
+  · refine pbind _ pget ?_
+    rintro _ _ ⟨rfl, rfl⟩
+    dsimp only
+    have hinj : langOnly (if md.babelInject = true then babelLanguageToken T (st.globalOptions ++ options) else []) := by
+      split
+      · exact langOnly_babel T _
+      · exact langOnly_nil
+    generalize (if md.babelInject = true then babelLanguageToken T (st.globalOptions ++ options) else []) = inject
+      at hinj ⊢
+    refine pbind _ pmodify ?_
+    intro _ s1 hs1
+    have hgood1 : Good T nroot st s1 := by
+      refine ⟨⟨⟨?_, ?_, ?_, ?_⟩, ?_, ?_⟩, ?_, ?_⟩ <;> rw [hs1]
+      · exact hg.flows
+      · intro m hmem
+        rcases List.mem_append.1 hmem with h | h
+        · rcases mem_foldl_setMacro h with h | h
+          · exact hg.macros m (by simp [h])
+          · exact hm m (by simp [h])
+        · rcases mem_foldl_setMacro h with h | h
+          · exact hg.macros m (by simp [h])
+          · exact hm m (by simp [h])
+      · intro e hmem
+        rcases mem_foldl_setMacro hmem with h | h
+        · exact hg.envs e h
+        · exact he e h
+      · exact hg.gloss
+      · exact hg.root
+      · exact hg.inFrame
+    clear hs1
+    split
+    · have hw1 := IHwork md.macrosLatex s1 hgood1.1.toG0 (fun h => absurd h hgood1.1.inFrame) hgood1.1.root
+      refine pbind _ hw1 ?_
+      intro _ s2 ⟨g0, hs, _⟩
+      exact ppure ⟨Good_trans hgood1 (G_of_G0_Same hgood1.1 g0 hs), hinj⟩
+    · exact ppure ⟨hgood1, hinj⟩
+theorem Post_foldlM {α β} (f : β → α → M β) (I : β → PState → Prop) (l : List α) (b : β) (st : PState)
+    (hI : I b st) (hf : ∀ b a s, a ∈ l → I b s → Post (f b a s) I) : Post (l.foldlM f b st) I := by
+  induction l generalizing b st with
+  | nil => rw [List.foldlM_nil]; exact ppure hI
+  | cons a l ih =>
+    rw [List.foldlM_cons]
+    refine pbind I (hf b a st (by simp) hI) ?_
+    intro b' s' h'
+    exact ih b' s' h' (fun b a s ha => hf b a s (by simp [ha]))
+
+theorem init_core (P : ModuleDef → Prop) (fuel : Nat)
+    (hfound : ∀ requ, P ((findModule T false requ).getD (emptyModule requ)))
+    (IHmod : ∀ (md : ModuleDef) (options : List KeyVal) (position : Nat) (st : PState), G T nroot st → P md →
+      Post (modifyParameters T fuel md options position st) (fun r st' => Good T nroot st st' ∧ langOnly r))
+    (IHinit : ∀ (name : Str) (md : ModuleDef) (builtin : Bool) (options : List KeyVal) (position : Nat)
+      (st : PState), G T nroot st → P md →
+      Post (initPackage T fuel name md builtin options position st) (fun r st' => Good T nroot st st' ∧ langOnly r))
+    (name : Str) (md : ModuleDef) (builtin : Bool) (options : List KeyVal) (position : Nat) (st : PState)
+    (hg : G T nroot st) (hmd : P md) :
+    Post (initPackage T (fuel + 1) name md builtin options position st)
+      (fun r st' => Good T nroot st st' ∧ langOnly r) := by
+  rw [initPackage.eq_2]
+  refine pbind _ pget ?_
+  rintro _ _ ⟨rfl, rfl⟩
+  split
+  · exact ppure ⟨Good_refl hg, langOnly_nil⟩
+  · apply Post_catchAll
+    refine pbind (fun acc s => Good T nroot st s ∧ langOnly acc) ?_ ?_
+    · apply Post_foldlM
+      · exact ⟨Good_refl hg, langOnly_nil⟩
+      · intro acc requ s _ ⟨hgood, hacc⟩
+        refine pbind _ pget ?_
+        rintro _ _ ⟨rfl, rfl⟩
+        dsimp only
+        split
+        · refine pbind _ (IHinit requ _ false options position s hgood.1 (hfound requ)) ?_
+          intro o s' ⟨g', ho⟩
+          exact ppure ⟨Good_trans hgood g', langOnly_append hacc ho⟩
+        · exact ppure ⟨hgood, hacc⟩
+    · intro reqOut s ⟨hgood, hacc⟩
+      dsimp only
+      have hjp : ∀ s1, Good T nroot st s1 →
+          Post ((do let o ← modifyParameters T fuel md options position; pure (reqOut ++ o)) s1)
+            (fun r st' => Good T nroot st st' ∧ langOnly r) := by
+        intro s1 hgood1
+        refine pbind _ (IHmod md options position s1 hgood1.1 hmd) ?_
+        intro o s' ⟨g', ho⟩
+        exact ppure ⟨Good_trans hgood1 g', langOnly_append hacc ho⟩
+      split
+      · refine pbind _ pmodify ?_
+        intro _ s1 hs1
+        refine hjp s1 ?_
+        rw [hs1]
+        exact Good_trans hgood ⟨⟨G0_congr hgood.1.toG0 rfl rfl rfl rfl rfl, hgood.1.root, hgood.1.inFrame⟩, rfl, rfl⟩
+      · exact hjp s hgood
+theorem findModule_mem {cls : Bool} {name : Str} {m : ModuleDef} (h : findModule T cls name = some m) :
+    m ∈ T.packageModules ++ T.classModules := by
+  unfold findModule at h
+  split at h
+  · cases h
+  · have := List.mem_of_find?_eq_some h
+    split at this
+    · exact List.mem_append.2 (Or.inr this)
+    · exact List.mem_append.2 (Or.inl this)
+
+theorem found_macrosOk (hw : T.WFInv) (cls : Bool) (requ : Str) :
+    ∀ m ∈ ((findModule T cls requ).getD (emptyModule requ)).macros ++
+      ((findModule T cls requ).getD (emptyModule requ)).envs, macroToksOk T m = true := by
+  cases h : findModule T cls requ with
+  | none => intro m hm; simp [emptyModule] at hm
+  | some md => exact hw.modules_ok md (findModule_mem T h)
+
+theorem found_envsOk (hw : T.WFInv) (cls : Bool) (requ : Str) :
+    ∀ e ∈ ((findModule T cls requ).getD (emptyModule requ)).envs, envOk T e = true := by
+  cases h : findModule T cls requ with
+  | none => intro m hm; simp [emptyModule] at hm
+  | some md =>
+    intro e he
+    refine hw.envs_ok e ?_
+    unfold allTableEnvs
+    exact List.mem_append.2 (Or.inr (List.mem_flatMap.2 ⟨md, findModule_mem T h, he⟩))
+
+end
+
+end StepWork
+open StepWork
+
 theorem work_step (hw : T.WFInv) (nroot fuel : Nat) (IH : AllSpecs T nroot fuel) :
     SpecWork T nroot (fuel + 1) := by
-  sorry
+  intro latex st hg h0 h1
+  rw [parserWork.eq_2]
+  refine pbind _ pget ?_
+  rintro _ _ ⟨rfl, rfl⟩
+  refine pbind _ pmodify ?_
+  intro _ s1 hs1
+  refine pbind _ pmodify ?_
+  intro _ s2 hs2
+  rw [hs1] at hs2
+  clear hs1 s1
+  have hl2 : s2.latex = latex := by rw [hs2]
+  have hn2 : s2.nest = st.nest + 1 := by rw [hs2]
+  have hG2 : G T nroot s2 := by
+    refine ⟨G0_congr hg (by rw [hs2]) (by rw [hs2]) (by rw [hs2]) (by rw [hs2]) (by rw [hs2]), ?_, ?_⟩
+    · rw [hn2, hl2]; intro h; exact h0 (by omega)
+    · rw [hn2]; omega
+  clear hs2
+  refine pbind _ pget ?_
+  rintro _ _ ⟨rfl, rfl⟩
+  dsimp only
+  refine pbind (fun toks s3 => BL T latex.length toks ∧ s3 = { s2 with diags := s3.diags }) ?_ ?_
+  · have hsp := skipPass_BL T latex.length s2 ((scan T.toTables latex).toks.length + 1)
+      (scan T.toTables latex).toks [] (scan_BL T hw latex) BL_nil
+    generalize skipPass s2 _ _ _ = sp at hsp ⊢
+    obtain ⟨p1, p2, p3⟩ := hsp
+    cases hb : sp.2.1 with
+    | none => exact ppure ⟨p1, rfl⟩
+    | some bpos =>
+      dsimp only
+      have hlt := p3 bpos hb
+      refine pbind _ (latexError_spec T hw _ bpos s2 (by rw [hl2]; exact hlt)) ?_
+      intro er s3 ⟨he, hs3⟩
+      rw [hl2] at he
+      exact ppure ⟨by rw [BL_append, BL_append]; exact ⟨⟨p1, OL_BL T _ _ he⟩, p2⟩, hs3⟩
+  · intro toks s3 ⟨ht, hs3⟩
+    have hgood3 := Good_of_diags hG2 hs3
+    have hl3 : s3.latex = latex := by rw [hgood3.2.1, hl2]
+    refine pbind _ (IH.seq toks none [] s3 hgood3.1 (by rw [hl3]; exact ht) (by intro x hx; cases hx)) ?_
+    intro r s4 ⟨g4, _, _, ho⟩
+    refine pbind _ pmodify ?_
+    intro _ s5 hs5
+    refine ppure ⟨?_, ⟨?_, ?_⟩, ?_⟩
+    · rw [hs5]; exact G0_congr g4.1.toG0 rfl rfl rfl rfl rfl
+    · rw [hs5]
+    · rw [hs5]; show s4.nest - 1 = st.nest; rw [g4.2.2, hgood3.2.2, hn2]; omega
+    · have := ho rfl; rw [hl3] at this; exact this
+
 
 theorem init_step (hw : T.WFInv) (nroot fuel : Nat) (IH : AllSpecs T nroot fuel) :
     SpecInit T nroot (fuel + 1) := by
-  sorry
+  intro name md builtin options position st hg hm he
+  exact init_core T nroot
+    (fun md => (∀ m ∈ md.macros ++ md.envs, macroToksOk T m = true) ∧ (∀ e ∈ md.envs, envOk T e = true)) fuel
+    (fun requ => ⟨found_macrosOk T hw false requ, found_envsOk T hw false requ⟩)
+    (fun md o p st hg hp => IH.modParams md o p st hg hp.1 hp.2)
+    (fun nm md b o p st hg hp => IH.init nm md b o p st hg hp.1 hp.2)
+    name md builtin options position st hg ⟨hm, he⟩
 
 theorem modParams_step (hw : T.WFInv) (nroot fuel : Nat) (IH : AllSpecs T nroot fuel) :
     SpecModParams T nroot (fuel + 1) := by
-  sorry
+  exact modParams_core T nroot fuel IH.work
 
 theorem keyvals_step (hw : T.WFInv) (nroot fuel : Nat) (IH : AllSpecs T nroot fuel) :
     SpecKeyvals T nroot (fuel + 1) := by
-  sorry
+  intro buf acc st hg hb ha
+  rw [parseKeyvals.eq_2]
+  have hsk := BL_skipSpace T _ _ hb
+  cases hb' : skipSpace buf with
+  | nil => exact ppure ⟨Good_refl hg, ha⟩
+  | cons t0 l0 =>
+    rw [hb'] at hsk
+    dsimp only
+    generalize t0 :: l0 = b at hsk
+    refine pbind (fun _ s => Good T nroot st s)
+      (IH.text _ st hg (BL_sub hsk (List.takeWhile_sublist _))) ?_
+    intro key s hgood
+    have hlen := Good_len hgood
+    have hb1 := BL_skipSpace T _ _ (BL_sub hsk (List.drop_sublist
+      (List.takeWhile (fun t => t.kind == Kind.text && !(txtIs t "=" || txtIs t ",")) b).length b))
+    have hnone : kvOk T st.latex.length (acc ++ [(key, none)]) :=
+      kvOk_snoc ha (by intro ts h; cases h)
+    cases hb1' : skipSpace (List.drop
+      (List.takeWhile (fun t => t.kind == Kind.text && !(txtIs t "=" || txtIs t ",")) b).length b) with
+    | nil => exact ppure ⟨hgood, hnone⟩
+    | cons t rest =>
+      rw [hb1'] at hb1
+      have hrest : BL T st.latex.length rest := fun x hx => hb1 x (by simp [hx])
+      dsimp only
+      split
+      · refine pmono (IH.keyvals rest _ s hgood.1 (by rw [hlen]; exact hrest) (by rw [hlen]; exact hnone)) ?_
+        intro a s' ⟨g, k⟩
+        rw [hlen] at k
+        exact ⟨Good_trans hgood g, k⟩
+      · refine pbind _ (IH.value (skipSpace rest) [] s hgood.1
+          (by rw [hlen]; exact BL_skipSpace T _ _ hrest) BL_nil) ?_
+        intro r s2 ⟨g2, r1, r2⟩
+        rw [hlen] at r1 r2
+        have hgood2 := Good_trans hgood g2
+        have hlen2 := Good_len hgood2
+        refine pmono (IH.keyvals _ _ s2 hgood2.1 (by rw [hlen2]; exact BL_sub r2 (List.drop_sublist 1 _))
+          (by
+            rw [hlen2]
+            refine kvOk_snoc ha ?_
+            intro ts hts
+            cases hts
+            split
+            · split
+              · exact BL_sub r1 (List.dropLast_sublist _)
+              · exact r1
+            · exact r1)) ?_
+        intro a s' ⟨g, k⟩
+        rw [hlen2] at k
+        exact ⟨Good_trans hgood2 g, k⟩
+
 
 theorem value_step (hw : T.WFInv) (nroot fuel : Nat) (IH : AllSpecs T nroot fuel) :
     SpecValue T nroot (fuel + 1) := by
-  sorry
+  intro buf val st hg hb hv
+  cases buf with
+  | nil => rw [parseValue.eq_2]; exact ppure ⟨Good_refl hg, hv, BL_nil⟩
+  | cons t rest =>
+    rw [parseValue.eq_3]
+    have ht := (hb t (by simp)).1.1
+    split
+    · exact ppure ⟨Good_refl hg, hv, hb⟩
+    · split
+      · refine pbind _ (argBuffer_spec T hw (t :: rest) 0 true st hb (by omega)) ?_
+        intro r s ⟨h1, _, h2, hs⟩
+        have hgood := Good_of_diags hg hs
+        have hlen := Good_len hgood
+        refine pmono (IH.value r.2 _ s hgood.1 (by rw [hlen]; exact h2) ?_) ?_
+        · rw [hlen, BL_append]
+          exact ⟨hv, parseValue_seq_BL T hw _ t r.1 ht h1⟩
+        · intro a s' ⟨g, b1, b2⟩
+          rw [hlen] at b1 b2
+          exact ⟨Good_trans hgood g, b1, b2⟩
+      · refine IH.value rest _ st hg ?_ ?_
+        · exact fun x hx => hb x (by simp [hx])
+        · rw [BL_append]; exact ⟨hv, by simp only [BL_cons]; exact ⟨hb t (by simp), BL_nil⟩⟩
+
 
 theorem expandKv_step (hw : T.WFInv) (nroot fuel : Nat) (IH : AllSpecs T nroot fuel) :
     SpecExpandKv T nroot (fuel + 1) := by
-  sorry
+  intro kvs st hg hk
+  cases kvs with
+  | nil => rw [expandKeyvals.eq_2]; exact Post_pure _ _ _ (Good_refl hg)
+  | cons kv kvs =>
+    obtain ⟨k, v⟩ := kv
+    have hrest : ∀ s, Good T nroot st s →
+        Post (expandKeyvals T fuel kvs s) (fun _ s' => Good T nroot st s') := by
+      intro s h
+      have := IH.expandKv kvs s h.1 (by rw [h.2.1]; intro kv hkv; exact hk kv (by simp [hkv]))
+      exact Post_mono _ _ _ this (fun a s' h' => Good_trans h h')
+    cases v with
+    | none =>
+      rw [expandKeyvals.eq_3]
+      refine pbind (fun _ s => Good T nroot st s) (ppure (Good_refl hg)) ?_
+      intro a s h
+      refine pbind (fun _ s' => Good T nroot st s') (hrest s h) ?_
+      intro a s h; exact ppure h
+    | some toks =>
+      rw [expandKeyvals.eq_4]
+      refine pbind (fun _ s => Good T nroot st s) ?_ ?_
+      · refine pbind (fun _ s => Good T nroot st s) ?_ ?_
+        · exact IH.text toks st hg (hk (k, some toks) (by simp) _ rfl)
+        · intro a s h; exact ppure h
+      · intro a s h
+        refine pbind (fun _ s' => Good T nroot st s') (hrest s h) ?_
+        intro a s h; exact ppure h
 
 theorem modDesc_step (hw : T.WFInv) (nroot fuel : Nat) (IH : AllSpecs T nroot fuel) :
     SpecModDesc T nroot (fuel + 1) := by
-  sorry
+  intro toks st hg hb
+  rw [modifyDescription.eq_2]
+  cases hc : capFirst T toks with
+  | none => exact Post_crash _ _ _
+  | some ts =>
+    dsimp only
+    have hts := capFirst_BL T _ _ _ hb hc
+    refine pbind (fun _ s => Good T nroot st s) (IH.text ts st hg hts) ?_
+    intro txt s h
+    cases txt.getLast? with
+    | none => exact ppure ⟨h, hts⟩
+    | some c =>
+      dsimp only
+      split
+      · exact ppure ⟨h, hts⟩
+      · cases hl : ts.getLast? with
+        | none => exact Post_crash _ _ _
+        | some l =>
+          refine ppure ⟨h, ?_⟩
+          rw [BL_append]
+          refine ⟨hts, ?_⟩
+          intro x hx
+          simp only [List.mem_singleton] at hx
+          subst hx
+          have hlm : l ∈ ts := List.mem_of_getLast? hl
+          exact OTok_BTok T _ _ (OTok_mkFix T _ _ _ _ (hts l hlm).1.1 (Or.inl rfl))
 
 end Yalafi
